@@ -29,7 +29,7 @@ def step (db : DB) (toks : List String) : DB × String :=
   let nat (s : String) : Nat := s.toNat?.getD 0
   match toks with
   | ["case", _] | ["case", _, _] => ({}, "ok")
-  | ["begin", i] => ((Defra.Mvcc.step db (.begin (nat i))).1, "ok")
+  | ["begin", i] | ["beginro", i] => ((Defra.Mvcc.step db (.begin (nat i))).1, "ok")
   | ["get", i, k] =>
     if nat i == 0 then
       match Defra.Mvcc.step db (.outsideRead (nat k)) with
